@@ -127,7 +127,7 @@ class ProgSet:
             raise ToolError("program set %s: still failing to compile after removing bad cases" % self.name)
         exe = os.path.join(target_dir(), "debug", "kprog")
         q = subprocess.run(["timeout", str(timeout), exe], stdout=subprocess.PIPE, stderr=subprocess.PIPE, text=True,
-                           preexec_fn=core._limits)
+                           errors="replace", preexec_fn=core._limits)
         got = {}
         for line in q.stdout.splitlines():
             if "\t" in line:
@@ -137,7 +137,7 @@ class ProgSet:
         iso = [k for k in live if self.opts.get(k, (False, None))[0]]
 
         def one(k):
-            r = subprocess.run(["timeout", "3", exe, str(k)], stdout=subprocess.PIPE, stderr=subprocess.PIPE, text=True,
+            r = subprocess.run(["timeout", "3", exe, str(k)], stdout=subprocess.PIPE, stderr=subprocess.PIPE, text=True, errors="replace",
                                preexec_fn=core._limits)
             if r.returncode == 124:
                 return k, "TIMEOUT"
